@@ -32,13 +32,14 @@ impl<const BITS: usize, const LIMBS: usize> Decode for Uint<BITS, LIMBS> {
     }
 
     fn from_ssz_bytes(bytes: &[u8]) -> Result<Self, DecodeError> {
-        if bytes.len() > nbytes(BITS) {
+        if bytes.len() != nbytes(BITS) {
             return Err(DecodeError::InvalidByteLength {
                 len:      bytes.len(),
                 expected: nbytes(BITS),
             });
         }
-        Ok(Self::from_le_slice(bytes))
+        Self::try_from_le_slice(bytes)
+            .ok_or_else(|| DecodeError::BytesInvalid(format!("value is too large for Uint<{BITS}>")))
     }
 }
 
